@@ -1111,6 +1111,19 @@ fn builtin_sort(args: Vec<Rc<Object>>) -> Result<Rc<Object>, String> {
     let obj = args[0].as_ref();
     match obj {
         Object::Arr(arr) => {
+            // Elements of different kinds (or a NaN) have no order between
+            // them. Sorting such an array with an order that treats them
+            // as equal is not a total order and makes the sort panic.
+            // (Elements none of which has an order, like nulls, stay as they are)
+            {
+                let elements = arr.elements.borrow();
+                let ordered = elements.iter().find(|e| e.partial_cmp(e).is_some());
+                if let Some(first) = ordered {
+                    if elements.iter().any(|e| e.partial_cmp(first).is_none()) {
+                        return Err(String::from("elements of the array are not comparable"));
+                    }
+                }
+            }
             arr.elements.borrow_mut().sort();
             Ok(Rc::clone(&args[0]))
         }
